@@ -318,3 +318,120 @@ func ruleCfgLocal(c *Ctx) {
 	c.OK("closure-scanned", "pkg/core", fmt.Sprintf("%d functions in the execution closure, %d reads of node-local configuration (all tabled)", len(fns), nread))
 	c.Floor("functions in the execution closure", len(fns), 1000)
 }
+
+// ---------------------------------------------------------------------------
+// exec-confinement: during execution nothing is written outside the layers that roll back with the transaction
+
+func storeRoot(v ssa.Value, depth int) ssa.Value {
+	for i := 0; i < 12 && v != nil; i++ {
+		switch x := v.(type) {
+		case *ssa.FieldAddr:
+			v = x.X
+		case *ssa.IndexAddr:
+			v = x.X
+		case *ssa.UnOp:
+			v = x.X
+		case *ssa.Field:
+			v = x.X
+		case *ssa.ChangeType:
+			v = x.X
+		default:
+			return v
+		}
+	}
+	return v
+}
+
+func ruleExecConfinement(c *Ctx) {
+	g := c.P.MRG()
+	via := g.Reach(execRoots(c, false), nil)
+	nat := c.P.Pkg(natPkg)
+	isContractObj := func(t types.Type) (string, bool) {
+		if p, ok := t.(*types.Pointer); ok {
+			t = p.Elem()
+		}
+		nt, ok := t.(*types.Named)
+		if !ok || nat == nil || nt.Obj().Pkg() != nat.Types {
+			return "", false
+		}
+		ms := types.NewMethodSet(types.NewPointer(nt))
+		if ms.Lookup(nat.Types, "Metadata") != nil && ms.Lookup(nat.Types, "OnPersist") != nil {
+			return nt.Obj().Name(), true
+		}
+		return "", false
+	}
+	tabled := map[string]string{
+		"Oracle.newRequests": "feed for the off-chain oracle service, reconciled against storage in PostPersist (not consulted by execution)",
+	}
+	var fns []*ssa.Function
+	for fn := range via {
+		fns = append(fns, fn)
+	}
+	sort.Slice(fns, func(i, j int) bool { return FnKey(fns[i]) < FnKey(fns[j]) })
+	nstores, nflag := 0, 0
+	for _, fn := range fns {
+		if fn.Pkg == nil && fn.Parent() == nil {
+			continue
+		}
+		for _, b := range fn.Blocks {
+			for _, ins := range b.Instrs {
+				var addr ssa.Value
+				switch x := ins.(type) {
+				case *ssa.Store:
+					addr = x.Addr
+				case *ssa.MapUpdate:
+					addr = x.Map
+				default:
+					continue
+				}
+				nstores++
+				root := storeRoot(addr, 0)
+				switch r := root.(type) {
+				case *ssa.Global:
+					if !InModule(r.Pkg.Pkg) {
+						continue
+					}
+					nflag++
+					key := "global." + pkgRel(r.Pkg.Pkg) + "." + r.Name() + "@" + FnKey(fn)
+					c.Fail(key, c.P.Pos(ins.Pos()), fmt.Sprintf("%s writes the package-level variable %s.%s during execution: the change survives a FAULT and a caught exception, and is gone after a restart", FnKey(fn), r.Pkg.Pkg.Name(), r.Name()), g.PathTo(via, fn)...)
+				case *ssa.Parameter:
+					name, ok := isContractObj(r.Type())
+					if !ok {
+						continue
+					}
+					// which field?
+					fld := "?"
+					for v := addr; v != nil; {
+						if fa, ok := v.(*ssa.FieldAddr); ok {
+							if storeRoot(fa.X, 0) == root {
+								if _, direct := fa.X.(*ssa.Parameter); direct {
+									fld = fieldName(fa)
+								}
+							}
+							v = fa.X
+							continue
+						}
+						if u, ok := v.(*ssa.UnOp); ok {
+							v = u.X
+							continue
+						}
+						if ia, ok := v.(*ssa.IndexAddr); ok {
+							v = ia.X
+							continue
+						}
+						break
+					}
+					nflag++
+					key := "native-object." + name + "." + fld
+					if why, ok := tabled[name+"."+fld]; ok {
+						c.OK(key+"@"+FnKey(fn), c.P.Pos(ins.Pos()), "tabled: "+why)
+						continue
+					}
+					c.Fail(key+"@"+FnKey(fn), c.P.Pos(ins.Pos()), fmt.Sprintf("%s writes field %s of the native contract object %s during execution: state kept outside the DAO layers survives a FAULT / caught exception and is absent after a restart", FnKey(fn), fld, name), g.PathTo(via, fn)...)
+				}
+			}
+		}
+	}
+	c.OK("closure-scanned", "pkg/core", fmt.Sprintf("%d stores in %d functions of the execution closure; %d target a package-level variable or a native contract object (all tabled)", nstores, len(fns), nflag))
+	c.Floor("stores scanned", nstores, 2000)
+}
